@@ -88,8 +88,30 @@ VARIANTS = [
     {"scheduler": {"enabled": True, "quantum_ms": 10 ** 8, "budgets": {"wall_ms": 10 ** 9, "t1_pops": 7}}},
     {"scheduler": {"enabled": True, "quantum_ms": 10 ** 8, "budgets": {"wall_ms": 10 ** 9, "t2_k": 1}}},
     {"scheduler": {"enabled": True, "quantum_ms": 10 ** 8, "budgets": {"wall_ms": 10 ** 9, "t2_k": 4}}},
+    # (indices are recorded in replays: append only)  single-leaf neighbours of the default config / of earlier variants
+    {"t1": {"iter_cap": 1}},  # 24
+    {"t1": {"decay": {"mode": "exp_floor", "rate": 0.3, "floor": 0.2}}},  # 25
+    {"t1": {"decay": {"mode": "attn_quad", "alpha": 0.5}}},  # 26 ~ 10
+    {"t2": {"tiers": ["cluster_semantic"], "clusters_top_m": 1}},  # 27
+    {"t2": {"tiers": ["cluster_semantic"], "clusters_top_m": 3}},  # 28 ~ 27
+    {"t2": {"tiers": ["exact_semantic"], "exact_recent_days": 30}},  # 29 ~ 8
+    {"t2": {"ranking": {"alpha_sim": 0.2, "beta_recency": 0.0, "gamma_importance": 0.8}}},  # 30 ~ 5
+    {"t2": {"hybrid": {"enabled": True, "lambda_graph": 1.0, "edge_threshold": 0.0, "walk_hops": 2}}},  # 31 ~ 17
+    {"t2": {"hybrid": {"enabled": True, "lambda_graph": 0.1, "edge_threshold": 0.0}}},  # 32 ~ 17
+    {"t2": {"hybrid": {"enabled": True, "lambda_graph": 1.0, "edge_threshold": 0.0, "max_bonus": 0.01}}},  # 33 ~ 17
+    {"t2": {"sim_threshold": 0.3}},  # 34 ~ 6
+    {"t2": {"residual_cap_per_turn": 0}},  # 35 ~ 9
+    {"t3": {"max_rag_loops": 0}},  # 36
+    {"t3": {"tokens": 4}},  # 37
+    {"t1": {"node_budget": 2.0}},  # 38 ~ 13
+    {"t1": {"radius_cap": 2}},  # 39 ~ 11
+    {"t1": {"queue_budget": 3}},  # 40 ~ 12
+    {"t3": {"max_ops_per_turn": 1}},  # 41
 ]
-NEIGHBOURS = {15: [16], 16: [15], 18: [19], 19: [18, 0], 20: [21, 0], 21: [20], 22: [23, 0], 23: [22]}
+NEIGHBOURS = {15: [16], 16: [15], 18: [19], 19: [18, 0], 20: [21, 0], 21: [20], 22: [23, 0], 23: [22],
+              26: [10], 10: [26], 27: [28], 28: [27], 29: [8], 8: [29], 30: [5], 5: [30], 31: [17], 32: [17], 33: [17],
+              17: [32], 34: [6], 6: [34], 35: [9], 9: [35], 38: [13], 13: [38], 39: [11], 11: [39], 40: [12], 12: [40],
+              24: [0], 25: [0], 36: [0], 37: [0], 41: [0], 1: [2], 2: [1], 3: [4], 4: [3]}
 
 DIAG_PREFIXES = ("cache_", "t1.cache_", "t2.cache_")
 
